@@ -289,9 +289,49 @@ class Exec(ExprMixin, CallMixin):
     def st_If(self, s):
         t = self.truth(self.eval(s.test), s)
         if self.ctx.branch(t, f"if@{s.lineno}"):
+            self.narrow(s.test, True)
             self.exec_block(s.body)
         else:
+            self.narrow(s.test, False)
             self.exec_block(s.orelse)
+
+    def narrow(self, test, taken: bool):
+        """Flow typing for plain local names: isinstance(x, T), `x is None`, `x is not None`, `x`, `not x`."""
+        try:
+            if isinstance(test, ast.UnaryOp) and isinstance(test.op, ast.Not):
+                return self.narrow(test.operand, not taken)
+            if isinstance(test, ast.BoolOp):
+                if isinstance(test.op, ast.And) and taken or isinstance(test.op, ast.Or) and not taken:
+                    for v in test.values:
+                        self.narrow(v, taken)
+                return
+            name, kind, arg = None, None, None
+            if isinstance(test, ast.Call) and isinstance(test.func, ast.Name) and test.func.id == "isinstance" and isinstance(test.args[0], ast.Name) and isinstance(test.args[1], ast.Name):
+                name, kind, arg = test.args[0].id, "isinstance", test.args[1].id
+            elif isinstance(test, ast.Compare) and len(test.ops) == 1 and isinstance(test.left, ast.Name) and isinstance(test.comparators[0], ast.Constant) and test.comparators[0].value is None:
+                name = test.left.id
+                kind = "none" if isinstance(test.ops[0], (ast.Is, ast.Eq)) else "notnone" if isinstance(test.ops[0], (ast.IsNot, ast.NotEq)) else None
+            elif isinstance(test, ast.Name):
+                name, kind = test.id, "truthy"
+            if name is None or kind is None or name not in self.ctx.locals:
+                return
+            v = self.ctx.locals[name]
+            if v.place is not None or v.t is None:
+                return
+            ty = v.ty
+            if isinstance(ty, TOpt):
+                notnone = (kind == "notnone" and taken) or (kind == "none" and not taken) or (kind == "truthy" and taken) or (kind == "isinstance" and taken)
+                if notnone:
+                    self.ctx.locals[name] = SV(ty.inner, ty.get(v.t))
+                return
+            if isinstance(ty, TUnion) and kind == "isinstance" and taken:
+                prim = {"int": TInt, "str": TStr, "bool": TBool, "float": TReal}
+                for i, a in enumerate(ty.alts):
+                    if (arg in prim and a == prim[arg]) or (arg == "tuple" and isinstance(a, TTuple)) or (arg == "list" and isinstance(a, TList)):
+                        self.ctx.locals[name] = SV(a, ty.project(v.t, i))
+                        return
+        except Exception:
+            return
 
     # -- match ----------------------------------------------------------
     def st_Match(self, s):
@@ -839,8 +879,10 @@ class Exec(ExprMixin, CallMixin):
             if not ct.trusted:
                 raise Unsupported(f"callee {ct.qualname} not found in {ct.path}", node)
         bound = self.bind_args(ct, fi, self_sv, node)
-        if ct.is_async or (fi is not None and fi.is_async) or ct.yields:
-            pass
+        if not self.spec_mode:
+            for aname, asrc in (self.cur_contract.ghost.get("call_asserts", {}).get(ct.fname) or {}).items():
+                t = self.truth(self._spec_eval(asrc))
+                self.ctx.oblige(f"assert:{self.cur_contract.qualname}:at-{ct.fname}:{aname}", t, kind="assert", line=node.lineno)
         if ct.inline:
             return self.inline_call(ct, fi, bound, node)
         c = self.ctx
